@@ -115,6 +115,17 @@ CHECKS["C14"] = dict(
         "size; public functions of `concurrent` modules have serial siblings with identical signatures. Index-disjointness at the raw-pointer "
         "sites and bit-identity of results are not decided.",
    design_ref="DESIGN.md §3 C14")
+CHECKS["C06"] = dict(
+   technique="static analysis: inter-procedural, path-sensitive abstract interpretation of MIR (intervals + power-of-two + lengths + variant sets + relational facts on tagged values) with taint from the byte readers",
+   text="Static proof that in Proof::from_bytes and everything it reaches, in Proof::security_level and in VerifierChannel::new with all sub-parsers "
+        "(commitments, queries, tables, OOD frame, FRI proof and layers, batch Merkle proof deserialisation) no integer derived from input bytes "
+        "reaches an overflow/underflow, division, pow/ilog2, bounds, unwrap, explicit-panic or pre-allocation site without having been proved "
+        "safe on that path. Obligations whose deciding operand is the length of a sequence built in a loop are counted as undecided, not as "
+        "alarms. Not covered (stated in DESIGN.md): the transcript replay / Merkle / FRI query phase of verify(), user Air::new, termination, "
+        "memory other than pre-allocation by unchecked counts.",
+   design_ref="DESIGN.md §3 C06",
+   note="Additional assumptions: std transfer functions for ~60 core/alloc functions; associated constants ELEMENT_BYTES <= 64, EXTENSION_DEGREE <= 3; "
+        "untainted (AIR-defined) operands below 2^32 when deciding whether an overflow is attacker-driven; contract for Context::num_modulus_bits.")
 NA = {
 }
 PENDING = "check under construction in this build round (see DESIGN.md §8)"
